@@ -7,7 +7,7 @@ to EVENT_LOG: the log is the emulator's observed gate stream.
 from jaqalpaq.core import GateDefinition, Parameter, ParamType
 from jaqalpaq.core.gatedef import BusyGateDefinition, add_idle_gates
 
-from .gateset_sig import RAW, GATES, VARIANTS, unitary, nq  # noqa: F401
+from .gateset_sig import RAW, GATES, VARIANTS, BUSY, unitary, nq  # noqa: F401
 
 KIND = {"q": ParamType.QUBIT, "f": ParamType.FLOAT, "i": ParamType.INT}
 
@@ -53,7 +53,9 @@ def make(idle=True, logged=True, variant="A"):
     base = _used_base() if derived else None
     for name, (params, fn) in VARIANTS[variant].items():
         u = None if fn is None else (_logged(name, fn) if logged else fn)
-        if derived and u is not None:
+        if name in BUSY:
+            g[name] = BusyGateDefinition(name, [Parameter(n, KIND[k]) for n, k in params], ideal_unitary=u)
+        elif derived and u is not None:
             g[name] = base.copy(name=name, parameters=[Parameter(n, KIND[k]) for n, k in params], ideal_unitary=u)
         else:
             g[name] = GateDefinition(name, [Parameter(n, KIND[k]) for n, k in params], ideal_unitary=u)
